@@ -2,9 +2,14 @@
 check and replays the reported input on the mutant and on the clean tree (not part of the check).
 
 usage: git -C /repo worktree add /work/repo-c04m HEAD; python tools/c03_c04_mutants.py [name prefix ...]
+MUT_PATCHES: comma-separated fix patches applied to the scratch tree before each mutant (not yet in /repo);
+CLEAN_REPO: the tree the reported input is replayed on as "clean" (default: the check's default /repo).
 """
 import json, os, re, subprocess, sys
 R = os.environ.get('MUT_REPO', '/work/repo-c04m')
+PATCHES = [x for x in os.environ.get('MUT_PATCHES', '').split(',') if x]
+CLEAN = os.environ.get('CLEAN_REPO', '')
+BP = 'pyglove/core/symbolic/base.py'
 V = os.path.dirname(os.path.dirname(os.path.abspath(__file__)))
 VS, KS, CS = 'pyglove/core/typing/value_specs.py', 'pyglove/core/typing/key_specs.py', 'pyglove/core/typing/class_schema.py'
 LP, DP, OP = 'pyglove/core/symbolic/list.py', 'pyglove/core/symbolic/dict.py', 'pyglove/core/symbolic/object.py'
@@ -45,7 +50,18 @@ M = [
  ('C03', 'M14 __delitem__: drop the min_size test', LP, "    if (self._value_spec\n        and len(self) - len(indices) < self._value_spec.min_size):", "    if False:"),
  ('C03', 'M16 Dict._formalized_value: a nested (parented) Dict no longer applies the field spec', DP, "    if field and flags.is_type_check_enabled():\n      value = field.apply(", "    if field and flags.is_type_check_enabled() and self.sym_parent is None:\n      value = field.apply("),
  ('C03', 'M15 Dict.custom_apply: adopt the partial mode before checking (F75 reverted)', DP, "        if not allow_partial and self.is_partial:", "        if False:"),
+ ('C03', 'N1 symbolic_transform_fn: seal only for a frozen FIELD (frozen Union candidate forgotten)', BP, "    if field.value.frozen or (value_spec is not None and value_spec.frozen):", "    if field.value.frozen:"),
+ ('C03', 'N2 symbolic_transform_fn: only a frozen List is sealed', BP, "    if field.value.frozen or (value_spec is not None and value_spec.frozen):", "    if isinstance(value, list) and (field.value.frozen or (value_spec is not None and value_spec.frozen)):"),
+ ('C03', 'N3 rebind pre-check: only the first target is examined', BP, "      if isinstance(parent_node, Symbolic) and treats_as_sealed(parent_node):\n        raise WritePermissionError(\n            f'Cannot rebind key {path.key!r} of '", "      if isinstance(parent_node, Symbolic) and treats_as_sealed(parent_node) and path is next(iter(path_value_pairs)):\n        raise WritePermissionError(\n            f'Cannot rebind key {path.key!r} of '"),
+ ('C03', 'N4 List write primitive: TypeError for a key of the wrong type', LP, "    if not isinstance(key, numbers.Integral):\n      raise KeyError(", "    if not isinstance(key, numbers.Integral):\n      raise TypeError("),
 ]
+
+
+def reset():
+  sh('git -C %s checkout -q .' % R)
+  for pt in PATCHES:
+    r = sh('git -C %s apply %s' % (R, pt))
+    assert r.returncode == 0, (pt, r.stderr)
 
 
 def sh(cmd):
@@ -53,11 +69,11 @@ def sh(cmd):
 
 
 def main(only):
-  sh('git -C %s checkout -q .' % R)
+  reset()
   for prop, name, f, old, new in M:
     if only and not any(name.startswith(o) for o in only):
       continue
-    sh('git -C %s checkout -q .' % R)
+    reset()
     src = open(os.path.join(R, f)).read()
     if src.count(old) != 1:
       print(name, '| PATTERN NOT FOUND', src.count(old), flush=True)
@@ -73,7 +89,7 @@ def main(only):
       info = json.load(open(os.path.join(V, rp)))
       sig = info.get('signature') or info.get('kind')
       r1 = sh("cd %s && VERIF_REPO=%s ./check %s --replay %s >/dev/null 2>&1; echo $?" % (V, R, prop, rp))
-      r2 = sh("cd %s && ./check %s --replay %s >/dev/null 2>&1; echo $?" % (V, prop, rp))
+      r2 = sh("cd %s && %s ./check %s --replay %s >/dev/null 2>&1; echo $?" % (V, ('VERIF_REPO=' + CLEAN) if CLEAN else '', prop, rp))
       rc = 'sig=%s replay: mutant exit %s, clean exit %s%s' % (
           sig, r1.stdout.strip(), r2.stdout.strip(), ' (no-failing-input-found)' if 'no-failing' in viol[0] else '')
     print('%s | importable=%s | %s | %s' % (name, imp.returncode == 0, lines[-1][:125], rc), flush=True)
